@@ -1,6 +1,9 @@
 """Native failing-input search for C18 (socket streams), run under /venv/bin/python against the REAL anyio code of the
 tree the obligations came from (PYTHONPATH=$SEGVC_REPO/src).
 
+A second kind of history, ["unix", size, chunk], drives the real `UNIXSocketStream.send` / `receive` over a real AF_UNIX
+socket pair with a small send buffer and a slow reader (partial writes): the peer reads exactly the item.
+
 The real `StreamProtocol`, `SocketStream` and `ResourceGuard` classes of anyio._backends._asyncio are driven over a
 *fake transport* (an in-process object with the asyncio.Transport methods the stream uses), so that the order of the
 transport's callbacks is under the control of the search: seeded random histories of
@@ -73,6 +76,8 @@ class FakeTransport:
 
 
 async def run_history(hist):
+    if hist and hist[0] == "unix":
+        return await run_unix(hist)
     import anyio
     from anyio import BrokenResourceError, BusyResourceError, ClosedResourceError, EndOfStream
     from anyio._backends._asyncio import SocketStream, StreamProtocol
@@ -222,6 +227,51 @@ async def run_history(hist):
                     raise Fail(f"history {hist}: aclose() left the transport open")
 
 
+async def run_unix(hist):
+    """["unix", size, reader_chunk]: a real AF_UNIX socket pair; the real UNIXSocketStream.send() of one item of `size`
+    bytes against a slow reader (so that the kernel takes the item in several partial writes), then receive(max_bytes)
+    on the other side: the peer must read exactly the item, once, in order; receive() returns 1..max_bytes bytes."""
+    import socket
+
+    from anyio._backends._asyncio import UNIXSocketStream
+
+    _, size, chunk = hist
+    a, b = socket.socketpair(socket.AF_UNIX, socket.SOCK_STREAM)
+    try:
+        a.setblocking(False)
+        b.setblocking(False)
+        a.setsockopt(socket.SOL_SOCKET, socket.SO_SNDBUF, 4096)
+        sa, sb = UNIXSocketStream(a), UNIXSocketStream(b)
+        item = bytes((i * 7 + i // 251) % 251 + 1 for i in range(size))
+        got = bytearray()
+
+        async def reader():
+            while len(got) < size + 64:
+                try:
+                    d = await asyncio.wait_for(sb.receive(chunk), 2)
+                except (asyncio.TimeoutError, Exception):  # noqa: BLE001
+                    return
+                if not (1 <= len(d) <= chunk):
+                    raise Fail(f"history {hist}: UNIX receive({chunk}) returned {len(d)} bytes")
+                got.extend(d)
+                if len(got) % 5 == 0:
+                    await asyncio.sleep(0)
+
+        rt = asyncio.ensure_future(reader())
+        try:
+            await asyncio.wait_for(sa.send(item), 20)
+        except asyncio.TimeoutError:
+            raise Fail(f"history {hist}: UNIX send() of {size} bytes did not finish") from None
+        await sa.aclose()
+        await rt
+        if bytes(got) != item:
+            n = next((i for i, (x, y) in enumerate(zip(got, item)) if x != y), min(len(got), len(item)))
+            raise Fail(f"history {hist}: the peer of a UNIX stream read {len(got)} bytes for an item of {size} bytes; first difference at offset {n} (bytes lost, duplicated or reordered by the partial-write loop)")
+    finally:
+        a.close()
+        b.close()
+
+
 def random_history(rng):
     n = rng.randint(3, 10)
     hist = []
@@ -254,6 +304,9 @@ DIRECTED = [
     [["data", 5], ["close"], ["recv", 3], ["recv", 3], ["recv", 3], ["send", 1, False]],
     [["busy_recv"], ["recv", 2], ["recv", 2]],
     [["data", 4], ["lost", True], ["recv", 8], ["recv", 8], ["send", 1, False]],
+    ["unix", 300000, 4096],
+    ["unix", 70001, 100],
+    ["unix", 10, 3],
 ]
 
 
